@@ -67,8 +67,29 @@ def _long_file():
     return segs
 
 
+def _long_at(p):
+    """130 segments; b has one value more in segment p and one less in segment p+1, so the cumulative offsets of a and b
+    differ at exactly one position (p)"""
+    i32 = 'Int32'
+    segs = []
+    nb_prev = None
+    for si in range(130):
+        nb = 3 if si == p else (1 if si == p + 1 else 2)
+        if si == 0:
+            segs.append(G.seg([(A, ['FULL', i32, 2]), (B, ['FULL', i32, nb])], chunks=1))
+        elif nb != nb_prev:
+            segs.append(G.seg([(B, ['FULL', i32, nb])], newlist=False, chunks=1))
+        else:
+            segs.append(G.seg([], meta=False, chunks=1))
+        nb_prev = nb
+    return segs
+
+
 FILES = _files()
 LONG = {'long': _long_file()}
+LONG_AT = [0, 1, 50, 98, 99, 100, 101, 127]
+for _p in LONG_AT:
+    LONG['long@%d' % _p] = _long_at(_p)
 _DATA = {}
 
 
@@ -79,7 +100,14 @@ def file_bytes(name, seed):
     return _DATA[k]
 
 
+_CURRENT_P = [0]
+
+
 def alphabet(la, lb):
+    if la > 100 and lb == la:   # long@p files: b's segment shapes differ from a's at one position only
+        p = _CURRENT_P[0]
+        return [['idx', 'a', 5], ['read', 'a', 2 * p, 3], ['idx', 'b', 2 * p + 1], ['idx', 'b', 2 * p + 2], ['read', 'b', max(0, 2 * p - 1), 5],
+                ['idx', 'b', lb - 1], ['idx', 'b', 2 * p + 4]]
     if la > 100:   # the long file: a short alphabet aimed at the tail, where the two channels' segment shapes differ
         return [['idx', 'a', 5], ['read', 'a', la - 4, 3], ['idx', 'b', lb - 1], ['idx', 'b', lb - 40], ['read', 'b', lb - 30, 10],
                 ['slice', 'b', lb - 12, lb, 3], ['idx', 'b', 3], ['newgen', 'a'], ['next', 'g', 0]]
@@ -195,6 +223,8 @@ def expectations(name, seed):
     s = Session(data)
     la, lb = len(s.ch['a']), len(s.ch['b'])
     s.close()
+    if '@' in name:
+        _CURRENT_P[0] = int(name.split('@')[1])
     alpha = alphabet(la, lb)
     single = {}
     for op in alpha:
@@ -333,7 +363,7 @@ def run(ctx):
         items.append((n, seed, [], 1))
     for n in LONG:
         alpha = expectations(n, seed)[0]
-        items += [(n, seed, [o1], 3) for o1 in alpha]
+        items += [(n, seed, [o1], 3 if n == 'long' else 2) for o1 in alpha]
     m = merge(ctx.map(_tree_worker, items, chunksize=8))
     # BFS with state keys
     bfs_depth = 5 if ctx.tier == 'quick' else 7
